@@ -1,6 +1,111 @@
+"""C06, C++ side: removeInnovation<m> from innovation_filtering.h and the generated C++ sensor_model."""
+from __future__ import annotations
+
+import os
+import subprocess
+from fractions import Fraction
+from math import inf, nextafter, sqrt
+
+from fv import core, cppharness
+
+
 def cases(tier, seed):
-    return iter(())
+    from fv.props import c06
+    yield {"kind": "cpp-helper"}
+    for m in c06.MS:
+        for k in c06.KS + [None, 0.0]:
+            if tier == "quick" and m in (3,) and k in (1.0, 3.0):
+                continue
+            yield {"kind": "cpp-filter", "m": m, "k": k}
+
+
+def eval_helper(case):
+    from fv.props import c06
+    fails, outcomes, sigs = [], set(), []
+    lines, expect = [], []
+    for m in c06.MS + [8]:
+        for k in c06.KS:
+            for label, y, Sinv, nis in c06.direct_inputs(m, k):
+                lines.append(" ".join([str(m), repr(k)] + [repr(v) for v in y] + [repr(v) for r in Sinv for v in r]))
+                expect.append((m, k, label, nis > Fraction(c06.threshold(k, m)), nis))
+    with cppharness.Scratch() as sc:
+        exe = os.path.join(sc.dir, "ri")
+        cmd = [cppharness.CXX] + cppharness.BASE_FLAGS + cppharness.include_flags() + [
+            os.path.join(core.VERIF, "cppdrivers", "remove_innovation.cpp"), "-o", exe]
+        p = subprocess.run(cmd, capture_output=True, text=True)
+        if p.returncode != 0:
+            return {"n": 1, "fails": [{"key": "does-not-compile:cpp-helper", "what": cppharness.first_error(p.stderr)}]}
+        rc, out, err = cppharness.run(exe, "\n".join(lines) + "\n")
+    got = out.split()
+    if rc != 0 or len(got) != len(expect):
+        return {"n": 1, "fails": [{"key": "driver:cpp-helper", "what": f"exit {rc}, {len(got)} answers for {len(expect)} cases: {err[:200]}"}]}
+    for g, (m, k, label, exp, nis) in zip(got, expect):
+        g = g == "1"
+        outcomes.add("discard" if g else "keep")
+        outcomes.add(f"{'discard' if g else 'keep'}:helper:m{m}:k{k}")
+        sigs.append(f"cpph:{m}:{k}:{label}")
+        if g != exp and not any(f["key"] == "decision:cpp-helper" for f in fails):
+            fails.append({"key": "decision:cpp-helper", "what": f"removeInnovation<{m}>(k={k}) = {g} but NIS {float(nis)!r} > "
+                          f"{c06.threshold(k, m)!r} is {exp} ({label})"})
+    return {"n": len(expect), "fails": fails, "outcomes": sorted(outcomes) + ["cpp-helper-ran"], "sigs": sigs,
+            "sample": {"kind": "cpp-helper", "cases": len(expect), "example": lines[7]}}
+
+
+def eval_filter(case):
+    from fv.props import c06
+    m, k = case["m"], case["k"]
+    d = c06.identity_def(m)
+    names = sorted(d["state"])
+    disabled = k is None or k == 0.0
+    T = c06.threshold(5.0 if disabled else k, m)
+    r = sqrt(T)
+    zs = [("sqrtT-", nextafter(r, -inf)), ("sqrtT", r), ("sqrtT+", nextafter(r, inf)), ("sqrtT--", nextafter(nextafter(r, -inf), -inf)),
+          ("sqrtT++", nextafter(nextafter(r, inf), inf)), ("half", r / 2), ("double", 2 * r), ("1e3", 1e3)]
+    pts, meta = [], []
+    for label, z1 in zs:
+        for pos in range(m):
+            z = [z1 if i == pos else 0.0 for i in range(m)]
+            pts.append({"dt": 0.1, "x": {s: 0.0 for s in names}, "u": {},
+                        "P": [[0.5 if i == j else 0.0 for j in range(m)] for i in range(m)],
+                        "z": {"s": {f"r{s}": z[i] for i, s in enumerate(names)}}})
+            meta.append((label, pos, z1, z))
+    res = cppharness.build_and_run_ekf(d, {"innovation_filtering": k}, pts)
+    fails, outcomes, sigs = [], set(), []
+
+    def fail(key, what):
+        if not any(f["key"].startswith(key) for f in fails):
+            fails.append({"key": f"{key}:cpp-filter", "what": f"cpp-filter m={m} k={k}: {what}"})
+
+    if not res["ok"]:
+        fail(f"{res['stage']}-failed", res["error"])
+        return {"n": 1, "fails": fails}
+    for p, (label, pos, z1, z) in enumerate(meta):
+        got = res["results"].get(p, {})
+        nis = z1 * z1
+        exp = False if disabled else nis > c06.threshold(k, m)
+        ux = [got.get(("ux", "s", s)) for s in names]
+        uP = [[got.get(("uP", "s", str(i), str(j))) for j in range(m)] for i in range(m)]
+        unchanged = all(v == 0.0 for v in ux) and all(uP[i][j] == (0.5 if i == j else 0.0) for i in range(m) for j in range(m))
+        updated = ux[pos] is not None and abs(ux[pos] - 0.5 * z1) <= 1e-12 * max(1, abs(z1)) and abs(uP[pos][pos] - 0.25) <= 1e-12
+        sigs.append(f"cppf:{m}:{k}:{label}:{pos}")
+        if unchanged:
+            dec = True
+        elif updated:
+            dec = False
+        else:
+            fail("neither-kept-nor-discarded", f"z={z}: result {ux} {uP}")
+            continue
+        outcomes.add("discard" if dec else "keep")
+        if dec != exp:
+            fail("decision", f"z={z} ({label}): discarded={dec}, but NIS={nis!r} > T={c06.threshold(k or 0.0, m)!r} is {exp}"
+                 + (" [filtering disabled]" if disabled else ""))
+        inn = [got.get(("inn", "s", str(i))) for i in range(m)]
+        if got.get(("innset", "s")) != 1 or inn != z:
+            fail("innovation-not-recorded", f"z={z} discarded={dec}: stored innovation {inn}")
+    return {"n": len(meta), "fails": fails, "sigs": sigs,
+            "outcomes": sorted(outcomes) + [f"{o}:cppf:m{m}:k{k}" for o in outcomes] + ["cpp-filter-ran"],
+            "sample": {"kind": "cpp-filter", "m": m, "k": k, "readings": [zz for _, _, _, zz in meta[:3]]}}
 
 
 def eval_case(case):
-    raise NotImplementedError
+    return eval_helper(case) if case["kind"] == "cpp-helper" else eval_filter(case)
